@@ -275,3 +275,78 @@ pub fn many_keys_window(cx: &mut Cx) {
     });
     cx.run();
 }
+
+/// COLD START: what a crash and restart of the whole process looks like to the library -- its
+/// very first calls, and several threads making them at once (a server that comes back up under
+/// load).  Once-per-process initialisation (lazy statics, self-tests, caches being born) can only
+/// be raced there, so the probe runs in a CHILD process: this engine re-executed with the
+/// `coldstart` subcommand, which releases n threads from a barrier into KeyGen + Sign + Verify +
+/// create_generators (even threads) or KeyPair::random + commit (odd threads) and prints what
+/// each obtained.  The parent compares the deterministic lines with the model.
+pub fn coldstart_child(a: &[String]) {
+    let suite = Suite::from_idx(a.first().and_then(|x| x.parse().ok()).unwrap_or(0));
+    let seed: u64 = a.get(1).and_then(|x| x.parse().ok()).unwrap_or(1);
+    let n: usize = a.get(2).and_then(|x| x.parse().ok()).unwrap_or(8);
+    let barrier = std::sync::Arc::new(std::sync::Barrier::new(n));
+    let hs: Vec<_> = (0..n).map(|i| {
+        let b = barrier.clone();
+        std::thread::spawn(move || {
+            let ikm = bytes_for(seed, b"cold-ikm", i as u64, 32);
+            let msgs = vec![bytes_for(seed, b"cold-m", i as u64, 7)];
+            b.wait();
+            let r: Result<String, String> = if i % 2 == 0 {
+                (|| {
+                    let (sk, pk) = api::keygen(suite, &ikm, None, None)?;
+                    let sig = api::sign(suite, &sk, &pk, &Some(b"cold".to_vec()), &Some(msgs.clone()))?;
+                    let ok = api::verify(suite, &pk, &sig, &Some(b"cold".to_vec()), &Some(msgs.clone())).accepted();
+                    let g = api::generators(suite, 3, None).concat();
+                    Ok(format!("{} {} {} {ok} {}", hex::encode(sk), hex::encode(pk), hex::encode(sig), hex::encode(g)))
+                })()
+            } else {
+                (|| {
+                    let (sk, _pk) = api::keygen_random(suite)?;
+                    let (cwp, bf) = api::commit(suite, &Some(msgs.clone()))?;
+                    let fine = sk.iter().any(|b| *b != 0) && bf.iter().any(|b| *b != 0) && api::validate_commit(suite, &Some(cwp), 2).accepted();
+                    Ok(format!("random {fine}"))
+                })()
+            };
+            match r { Ok(s) => format!("{i} ok {s}"), Err(e) => format!("{i} err {}", e.replace(' ', "_")) }
+        })
+    }).collect();
+    for h in hs { match h.join() { Ok(l) => println!("{l}"), Err(_) => println!("x panic") } }
+}
+
+/// the parent side (C10): launch the child, compare with the model
+pub fn cold_start(cx: &mut Cx) {
+    let suite = Suite::from_idx(cx.ch.choose("burst_suite", 2));
+    let n = [1usize, 2, 8, 16][cx.ch.choose("cold_threads", 4) as usize];
+    let seed = cx.run_seed;
+    let launcher = cx.node("launcher");
+    cx.count("probe.cold_start_of_a_child_process");
+    let sidx = if suite == Suite::from_idx(0) { 0 } else { 1 };
+    cx.step(launcher, "cold-start-child", StepOpts::default(), move || {
+        let exe = std::env::current_exe().map_err(|e| e.to_string())?;
+        let out = std::process::Command::new(exe).args(["coldstart", &sidx.to_string(), &seed.to_string(), &n.to_string()]).output().map_err(|e| e.to_string())?;
+        Ok::<_, String>((String::from_utf8_lossy(&out.stdout).to_string(), out.status.code()))
+    }, move |cx, st| {
+        let (text, code) = match st.out { Ok(Ok(t)) => t, other => { eprintln!("zksim: cold-start child could not be launched: {other:?} (harness error)"); std::process::exit(2); } };
+        cx.eval(&[b"cold-start", text.as_bytes()], true);
+        cx.count("fault.process_restart_with_concurrent_first_calls");
+        if code != Some(0) { cx.violation("C10", "cold-start/child-crashed".into(), format!("exit status {code:?} with {n} threads making the first calls of the process")); return; }
+        let lines: Vec<&str> = text.lines().collect();
+        if lines.len() != n { cx.violation("C10", "cold-start/child-crashed".into(), format!("{} result lines for {n} threads", lines.len())); return; }
+        for l in lines {
+            let f: Vec<&str> = l.split(' ').collect();
+            let Some(i) = f.first().and_then(|x| x.parse::<u64>().ok()) else { cx.violation("C10", "cold-start/thread-panicked".into(), l.to_string()); continue; };
+            if f.get(1) != Some(&"ok") { cx.violation("C10", "cold-start/first-call-failed".into(), format!("thread {i} of {n}: {l}")); continue; }
+            if i % 2 == 1 { if f.get(3) != Some(&"true") { cx.violation("C10", "cold-start/random-path-not-fine".into(), l.to_string()); } continue; }
+            let ikm = bytes_for(seed, b"cold-ikm", i, 32);
+            let msgs = vec![bytes_for(seed, b"cold-m", i, 7)];
+            use group::Curve;
+            let want = (|| { let sk = rm::keygen(suite, &ikm, &[], None)?; let pk = rm::sk_to_pk(&sk); let sig = rm::sign(suite, &sk, &pk, b"cold", &msgs)?; let g: Vec<u8> = rm::create_generators(suite, 3, &[])?.iter().flat_map(|p| p.to_affine().to_compressed()).collect(); Ok::<_, &'static str>(format!("{} {} {} true {}", hex::encode(sk.to_be_bytes()), hex::encode(pk), hex::encode(sig.to_bytes()), hex::encode(g))) })();
+            let got = f[2..].join(" ");
+            match want { Ok(w) if w == got => cx.count("verdict.MustAccept.accept"), other => cx.violation("C10", "cold-start/differs-from-model".into(), format!("thread {i} of {n}: library {got} vs model {other:?}")) }
+        }
+    });
+    cx.run();
+}
